@@ -26,7 +26,7 @@ ASSUMPTIONS = [
     "ValueError for unknown ids / undecodable values is documented behaviour and not a network failure",
 ]
 MUST = ["damaged_frames_not_a_refusal", "os_error_on_send", "os_error_on_receive", "idle_error_keepalive", "tcp_connect_failure", "cfc_checked",
-        "cfc_after_rejection", "cfc_checked_overlapping_calls", "api_calls_under_fault", "ident_payloads", "discover_payloads", "failed_exception_seen",
+        "cfc_after_rejection", "cfc_checked_overlapping_calls", "entry_points_under_fault", "settings_read_with_refused_registers", "api_calls_under_fault", "ident_payloads", "discover_payloads", "failed_exception_seen",
         "rejected_exception_seen"]
 EXHAUSTIVE = {"quick": False, "thorough": False}
 OK_TYPES = ("ok", "RequestFailedException", "RequestRejectedException")
@@ -477,6 +477,8 @@ def run_shard(spec):
                     run_c({"family": spec["family"], "port": spec["port"], "mode": mode, "keep_alive": ka,
                            "info_first": info_first, "T": 1, "R": 1}, part)
     elif p == "D":
+        if str(spec["seed"]).endswith(":0") or spec["seed"] == "replay":
+            entry_points_under_fault(part)
         # connect() asked neither for a family nor for discovery: a usage error, reported through the same exception family
         import asyncio
         g = env.goodwe()
@@ -502,6 +504,68 @@ def run_shard(spec):
     return part
 
 
+def entry_points_under_fault(part):
+    """discover() / connect() without a family / search_inverters() against an inverter in a fault mode, and ET.read_settings_data()
+    while single setting registers are refused: nothing but InverterError (or a result) may come out"""
+    import asyncio
+    g = env.goodwe()
+    for fam in ("ET", "DT", "ES"):
+        for port in ((8899, 502) if fam != "ES" else (8899,)):
+            for mode in ("silent", "garbage", ["junk", 0], ["junk", 5], ["junk", 8], "eof", ["recverr", errno.ECONNREFUSED], ["exc", 4], ["exc", 2]):
+                for entry in ("discover", "connect"):
+                    sim = models.family_sim(fam)
+                    sim.fault = tuple(mode) if isinstance(mode, list) else mode
+                    res = {}
+
+                    async def flow(loop):
+                        try:
+                            await (g.discover("inv0", port, 1, 1) if entry == "discover" else g.connect("inv0", port, None, 0, 1, 1))
+                            res["out"] = "ok"
+                        except g.InverterError:
+                            res["out"] = "InverterError"
+                        except asyncio.CancelledError:
+                            res["out"] = "CancelledError"
+                        except Exception as e:      # noqa
+                            res["out"] = type(e).__name__ + ": " + str(e)[:80]
+                    run = engine.run_custom({("inv0", port): sim}, flow, vtime_cap=600, tx_cap=600)
+                    part.evaluations += 1
+                    part.count("entry_points_under_fault")
+                    case = {"part": "D1"}
+                    if run.stop:
+                        part.violate(f"C09/api/{entry}/hang", f"{entry}() port {port} against a {fam} inverter in fault mode {mode}: {run.stop}", case)
+                    elif res.get("out") not in ("ok", "InverterError"):
+                        part.violate(f"C09/api/{entry}/raw-exception/{res.get('out', '?').split(':')[0]}",
+                                     f"{entry}() port {port} against a {fam} inverter in fault mode {mode} ended with {res.get('out')}", case)
+                    for le in run.loop_errors:
+                        part.violate(f"C09/api/{entry}/callback-exception/{le['exception'].split('(')[0]}",
+                                     f"{entry}() port {port}, {fam}, fault {mode}: unhandled in a loop callback: {le['message']} {le['exception'][:100]}", case)
+    for port in (8899, 502):
+        for regs in ((47120,), (45482, 47010), (47500, 47916, 45132), (45200,)):
+            sim = models.family_sim("ET")
+            for a in regs:
+                sim.refused.append((a, a))
+            res = {}
+
+            async def flow(loop):
+                inv = g.ET("inv0", port, 0, 1, 0)
+                await inv.read_device_info()
+                for call in ("read_settings_data", "read_settings_data"):
+                    try:
+                        await getattr(inv, call)()
+                        res[call] = "ok"
+                    except g.InverterError:
+                        res[call] = "InverterError"
+                    except Exception as e:      # noqa
+                        res[call] = type(e).__name__ + ": " + str(e)[:80]
+            run = engine.run_custom({("inv0", port): sim}, flow, vtime_cap=600, tx_cap=2000)
+            part.evaluations += 1
+            part.count("settings_read_with_refused_registers")
+            if run.stop or run.error is not None or res.get("read_settings_data") not in ("ok", "InverterError"):
+                part.violate(f"C09/api/ET/raw-exception/{str(res.get('read_settings_data', run.stop or run.error)).split(':')[0]}",
+                             f"ET.read_settings_data() port {port} with setting registers {regs} refused: {res.get('read_settings_data')} {run.stop or ''} "
+                             f"{repr(run.error) if run.error is not None else ''}", {"part": "D1"})
+
+
 def replay(case):
     part = Part()
     p = case["part"]
@@ -511,6 +575,9 @@ def replay(case):
         vs = run_b(case["scenario"], part)
     elif p == "Bo":
         vs = run_b_overlap(case["scenario"], part)
+    elif p == "D1":
+        entry_points_under_fault(part)
+        return [{"key": v["key"], "msg": v["msg"]} for v in part.violations]
     elif p == "D0":
         run_shard({"part": "D", "seed": "replay", "n": 0})
         vs = []
